@@ -527,8 +527,10 @@ def monitors(world, pid, snap, queues, run, hist_tags):
                 if cnt[k] != node.affinity_counters[k]:
                     H('counter-wrong', 'cycle', (node.name, k, cnt[k], node.affinity_counters[k]))
             byaff = collections.defaultdict(list)
+            aff_of = getattr(world, 'affinity_of', None)
             for a in _apps_under(world, node):
-                byaff[a.affinity.name].append(a)
+                # the affinity the instance was DECLARED with (the stored manifest), where the world knows it
+                byaff[aff_of(a) if aff_of is not None else a.affinity.name].append(a)
             for k, l in byaff.items():
                 lvl = getattr(world, 'level_of', lambda n_: n_.level)(node)
                 lim = min(dict(a.affinity.limits).get(lvl, float('inf')) for a in l)
